@@ -176,20 +176,18 @@ func checkC19(c *Ctx) {
 	wp := hopID("transport", "Server", "writePacket")
 	ackReader := hopID("transport", "Server", "readPQClientAck")
 	hidReader := hopID("transport", "Server", "handlePQClientRequestHidden")
-	var hidCall, ackCall *ssa.Call
-	eachInstr(rp, func(ins ssa.Instruction) {
-		if call, ok := ins.(*ssa.Call); ok {
-			switch calleeID(call) {
-			case ackReader:
-				ackCall = call
-			case hidReader:
-				hidCall = call
-			}
-		}
-	})
-	nSites := 0
-	seen := map[string]int{}
-	eachInstr(rp, func(ins ssa.Instruction) {
+	// path-based (helpers cut out of readPacket are inlined): per site, the conjunction over all paths through it
+	type siteRes struct {
+		ins                    ssa.Instruction
+		id                     string
+		seen                   bool
+		r4ok, r2ok, lenOK      bool
+		hiddenArm, discover    bool
+		r4why                  string
+	}
+	sites := map[ssa.Instruction]*siteRes{}
+	var order []*siteRes
+	P.eachOwnedInstr(rp, func(_ *ssa.Function, ins ssa.Instruction, _ func(ssa.Value) ssa.Value) {
 		call, ok := ins.(*ssa.Call)
 		if !ok {
 			return
@@ -198,60 +196,132 @@ func checkC19(c *Ctx) {
 		if id != setHS && id != finish && id != wp {
 			return
 		}
-		nSites++
-		short := calleeFunc(&call.Call).Name()
-		seen[short]++
-		cons := fmt.Sprintf("%s#%s%d", FuncName(rp), short, seen[short])
-		inHiddenArm := inArm(mf, ins, mtHidden)
-		notHidden := false
-		if v, known := fieldBoolFact(mf.At(ins), fHidden); known && !v {
-			notHidden = true
-		}
-		switch {
-		case inHiddenArm:
-			okv := hidCall != nil && dominatesInstr(hidCall, ins)
-			if okv {
-				ev := errResultOf(hidCall)
-				okv = ev != nil && mf.NilAt(ins, ev) == isNil
-			}
-			c.Check(okv, "C19.R4", cons, P.InstrPos(ins), "hidden arm: after a nil handlePQClientRequestHidden",
-				"in the hidden-request arm "+short+" is reachable without handlePQClientRequestHidden having returned nil: a hidden server would react to a request that did not verify")
-		case notHidden:
-			c.OK("C19.R4", cons, P.InstrPos(ins), "discoverable arm under !s.config.IsHidden")
-		default:
-			c.Fail("C19.R4", cons, P.InstrPos(ins), short+" is reachable in readPacket without !s.config.IsHidden and outside the verified hidden-request arm: a hidden-mode server would answer or keep state for discoverable-mode messages")
-		}
-		if id == setHS {
-			// R2: dominated by the nil edge of the reader whose state it stores
-			hsArg := call.Call.Args[2]
-			src, _ := fromCall(hsArg)
-			okv := false
-			if src != nil && (src == ackCall || src == hidCall) {
-				ev := errResultOf(src)
-				okv = ev != nil && mf.NilAt(ins, ev) == isNil
-			}
-			c.Check(okv, "C19.R2", cons, P.InstrPos(ins), "state stored only for a state returned by a reader whose error is nil here",
-				"handshake state is stored for a state that does not come from readPQClientAck / handlePQClientRequestHidden with a nil error (state before cookie + MAC verification)")
-			// exact length
-			if src != nil {
-				nV := extractOf(src, 0)
-				okLen := false
-				for k, v := range mf.At(ins) {
-					if k.op == token.EQL && k.y != nil && v && nV != nil && (k.x == nV || k.y == nV) {
-						okLen = true
-					}
-				}
-				c.Check(okLen, "C19.R2", cons+":exact-length", P.InstrPos(ins), "n == msgLen required", "handshake state is stored without the reader's consumed length having been found equal to the datagram length")
-			}
+		if sites[ins] == nil {
+			sr := &siteRes{ins: ins, id: id, r4ok: true, r2ok: true, lenOK: true}
+			sites[ins] = sr
+			order = append(order, sr)
 		}
 	})
+	pathFactArm := func(facts map[atomKey]bool, val int64) bool {
+		for k, v := range facts {
+			if k.op == token.EQL && k.y != nil && v {
+				if n, ok := constInt(k.y); ok && n == val {
+					if _, isC := k.x.(*ssa.Const); !isC {
+						return true
+					}
+				}
+				if n, ok := constInt(k.x); ok && n == val {
+					if _, isC := k.y.(*ssa.Const); !isC {
+						return true
+					}
+				}
+			}
+		}
+		return false
+	}
+	okWalk := walkAllOpts(c, "C19.R4", rp, PathOpts{MaxVisits: 1, EmitTruncated: true, MaxPaths: 400000}, func(p *Path) {
+		var lastHid, lastAck *ssa.Call
+		p.ForEach(func(i int, ins ssa.Instruction) bool {
+			call, ok := ins.(*ssa.Call)
+			if !ok {
+				return true
+			}
+			switch calleeID(call) {
+			case ackReader:
+				lastAck = call
+			case hidReader:
+				lastHid = call
+			}
+			sr := sites[ins]
+			if sr == nil {
+				return true
+			}
+			sr.seen = true
+			facts := p.FactsAt(i)
+			short := calleeFunc(&call.Call).Name()
+			inHiddenArm := pathFactArm(facts, mtHidden)
+			notHidden := false
+			if v, known := fieldBoolFact(facts, fHidden); known && !v {
+				notHidden = true
+			}
+			switch {
+			case inHiddenArm:
+				sr.hiddenArm = true
+				okv := lastHid != nil
+				if okv {
+					ev := errResultOf(lastHid)
+					okv = ev != nil && p.Nilness(ev, i) == isNil
+				}
+				if !okv {
+					sr.r4ok = false
+					sr.r4why = "in the hidden-request arm " + short + " is reachable without handlePQClientRequestHidden having returned nil: a hidden server would react to a request that did not verify"
+				}
+			case notHidden:
+				sr.discover = true
+			default:
+				sr.r4ok = false
+				sr.r4why = short + " is reachable in readPacket without !s.config.IsHidden and outside the verified hidden-request arm: a hidden-mode server would answer or keep state for discoverable-mode messages"
+			}
+			if sr.id == setHS {
+				hsArg := p.Resolve(call.Call.Args[2], i)
+				src, _ := fromCall(hsArg)
+				okv := false
+				if src != nil && (src == lastAck || src == lastHid) {
+					ev := errResultOf(src)
+					okv = ev != nil && p.Nilness(ev, i) == isNil
+				}
+				if !okv {
+					sr.r2ok = false
+				}
+				okLen := false
+				if src != nil {
+					nV := extractOf(src, 0)
+					for k, v := range facts {
+						if k.op == token.EQL && k.y != nil && v && nV != nil && (k.x == nV || k.y == nV) {
+							okLen = true
+						}
+					}
+				}
+				if !okLen {
+					sr.lenOK = false
+				}
+			}
+			return true
+		})
+	})
+	nSites := 0
+	seen := map[string]int{}
+	sort.SliceStable(order, func(a, b int) bool { return order[a].ins.Pos() < order[b].ins.Pos() })
+	for _, sr := range order {
+		nSites++
+		short := calleeFunc(&sr.ins.(*ssa.Call).Call).Name()
+		seen[short]++
+		cons := fmt.Sprintf("%s#%s%d", FuncName(rp), short, seen[short])
+		if !okWalk {
+			continue
+		}
+		if !sr.seen {
+			c.Undecided("C19.R4", cons, "the site is not on any enumerated path of readPacket")
+			continue
+		}
+		detail := "discoverable arm under !s.config.IsHidden"
+		if sr.hiddenArm {
+			detail = "hidden arm: after a nil handlePQClientRequestHidden"
+		}
+		c.Check(sr.r4ok, "C19.R4", cons, P.InstrPos(sr.ins), detail, sr.r4why)
+		if sr.id == setHS {
+			c.Check(sr.r2ok, "C19.R2", cons, P.InstrPos(sr.ins), "state stored only for a state returned by a reader whose error is nil here",
+				"handshake state is stored for a state that does not come from readPQClientAck / handlePQClientRequestHidden with a nil error (state before cookie + MAC verification)")
+			c.Check(sr.lenOK, "C19.R2", cons+":exact-length", P.InstrPos(sr.ins), "n == msgLen required", "handshake state is stored without the reader's consumed length having been found equal to the datagram length")
+		}
+	}
 	c.Floor("C19.R4", "writePacket/setHandshakeState/finishHandshake sites in readPacket", nSites, 7)
 	_ = mtAuth
 	// who else calls setHandshakeState / writePacket
 	for _, id := range []string{setHS, wp} {
 		for _, f := range P.ModuleFuncs() {
 			for _, cs := range callSitesIn(f, false, id) {
-				if f != rp {
+				if !P.OwnedBy(f, rp) {
 					live := P.Live()[f]
 					c.Check(!live, "C19.R2", "call:"+calleeFunc(cs.Common()).Name()+"@"+FuncName(f), P.InstrPos(cs), "dead legacy caller",
 						calleeFunc(cs.Common()).Name()+" gained a live caller outside readPacket")
